@@ -178,7 +178,7 @@ META = {
 MANIFEST = {
     'text': 'Bounded symbolic model checking of link semantics by final-state equivalence: z3 decides for all lengths that link+unlink histories over '
             'ISO9660/Joliet/UDF/Rock Ridge names end in exactly the state of the direct history (space released iff last reference removed).',
-    'note': 'Bounded by the three link histories x configuration list x length interval. Trusted: CrossHair, z3, constant clock/random.',
+    'note': 'Bounded by the four link histories x configuration list x length interval, plus unlink after re-open (C07.b, one symbolic length). Trusted: CrossHair, z3, constant clock/random.',
     'technique': 'symbolic execution of real link/unlink code (CrossHair + z3), differential final-state digest',
 }
 
